@@ -15,7 +15,8 @@ EXPLANATION = (
     "the same gather over newaxes after validating the permutation; in every branch of Misc.combine_pops each loop variable "
     "ranges over the extent of the axis it indexes; scramble_pop_ids pools by the allele total and re-deals with the "
     "multivariate hypergeometric weight prod C(t_a,d_a)/C(T,d). Equality with explicit re-indexing on particular arrays is not decided."
-    ' scramble_pop_ids and combine_two_pops are decided by abstract execution (the stores they make), not by the form of their loops.')
+    ' scramble_pop_ids and combine_two_pops are decided by abstract execution (the stores they make), not by the form of their loops.'
+    ' R-RANGE: the re-dealing weight of scramble_pop_ids is formed in log space or with exact integers (a floating-point comb/binom/factorial overflows beyond 1029 pooled chromosomes). R-DTYPE: the bookkeeping methods create no array with a narrow or argument-dependent dtype.')
 TECHNIQUE = "finite-domain abstract execution of the bookkeeping methods (stores and returned values) + index-name correspondence and sibling consistency of parallel sites"
 DECLINED = ["value equality with explicit re-indexing on particular arrays", "commutation with projection/folding as a numerical statement"]
 
